@@ -223,7 +223,7 @@ impl KeyGen {
         kg
     }
 
-    fn fresh(&self, rng: &mut Rng) -> Vec<u8> {
+    pub fn fresh(&self, rng: &mut Rng) -> Vec<u8> {
         let len = if self.long && rng.chance(1, 4) {
             // cross the 63-nibble inline stem limit (31/32/33 bytes) now and then
             *rng.pick(&[30usize, 31, 32, 33, 40])
